@@ -192,7 +192,19 @@ def brute_force(values, n, m, p, pen, L=None):
     return best, arg
 
 
+def extra(tier, seed):
+    """E2: CrossHair contracts of the pure-Python helpers this property rests on (thorough tier)."""
+    if tier != "thorough":
+        return None
+    from .e2 import run_specs
+    return run_specs(["get_changepoints"], timeout=90)
+
+
 def replay(cx):
+    from .e2 import replay_cx
+    _e2 = replay_cx(cx)
+    if _e2 is not None:
+        return _e2
     info = cx.get("info") or {}
     n, m, p = info.get("n"), info.get("m"), info.get("p", 1)
     model = cx.get("model") or {}
